@@ -225,6 +225,51 @@ fn check_pair_inner(ctx: &Ctx, mode: SubMode, set: &SubSet, hay: &[u8], place: P
             }
         }
     }
+    if mode.judge_region && !needle.is_empty() {
+        // C05 quantifies over "safe calls whose needle differs from the construction needle": the
+        // low-level searchers take the needle again at search time. Whatever they return (or whether they
+        // panic) is unspecified then; what is judged are the memory accesses (guard pages next to the
+        // haystack, checked vector loads).
+        let mut foreign: Vec<Vec<u8>> = Vec::with_capacity(4);
+        let mut f1 = hay.to_vec();
+        f1.extend_from_slice(needle); // longer than the haystack, the haystack is its prefix
+        foreign.push(f1);
+        let mut f3 = needle.to_vec();
+        *f3.last_mut().unwrap() ^= 0x20; // same length, differs in the last byte
+        foreign.push(f3);
+        match hay.len() % 4 {
+            0 => {
+                let mut f = hay.to_vec();
+                f.push(needle[needle.len() - 1]); // one byte longer than the haystack
+                foreign.push(f);
+            }
+            1 => {
+                let mut f = needle.to_vec();
+                f.extend_from_slice(needle); // twice the construction needle
+                foreign.push(f);
+            }
+            2 => foreign.push(needle[..needle.len() - 1].to_vec()), // shorter (possibly empty)
+            _ => {
+                if hay.len() >= needle.len() {
+                    foreign.push(hay[hay.len() - needle.len()..].to_vec()); // occurs at the very end of the haystack
+                }
+            }
+        }
+        for f in foreign.iter() {
+            let f: &[u8] = f;
+            st.calls += 4;
+            let _ = catch_unwind(AssertUnwindSafe(|| set.tw.find(hay, f)));
+            let _ = catch_unwind(AssertUnwindSafe(|| set.twr.rfind(hay, f)));
+            let _ = catch_unwind(AssertUnwindSafe(|| set.rk.find(hay, f)));
+            let _ = catch_unwind(AssertUnwindSafe(|| set.rkr.rfind(hay, f)));
+            for (_, pp) in set.pps.iter() {
+                if hay.len() >= pp.min_haystack_len() {
+                    st.calls += 1;
+                    let _ = catch_unwind(AssertUnwindSafe(|| pp.find(hay, f)));
+                }
+            }
+        }
+    }
     if mode.judge_region {
         if let Some(rv) = region_take() {
             let start = hay.as_ptr() as usize;
